@@ -160,7 +160,7 @@ func MultiThenSame(name, kind string, tail int, bound int) *world.Scenario {
 		reqs = append(reqs, GetReq(keysA[1+i]))
 	}
 	c1 := ClientOf(reqs, true)
-	c2 := ClientOf([]Req{GetReq(keysA[4]), GetReq(keysB[1])}, true)
+	c2 := ClientOf([]Req{GetReq(keysC[1]), GetReq(keysC[2])}, true) // never touches the nodes of the split request: nothing else makes their connections readable again
 	sc := &world.Scenario{Nodes: T3m(), Bound: bound, Horizon: 400, Clients: []world.ClientSpec{c1, c2},
 		CoalesceAll: true, Family: "fragment-reply-followed-by-replies-in-its-read"}
 	sc.Name = fmt.Sprintf("%s/multi-then-same/%s/tail%d/d%d", name, kind, tail, bound)
